@@ -157,10 +157,31 @@ def pick_faces(rng, cls, a, n):
     return sorted(rng.sample(pool, n + 1))
 
 
-def gen_config(rng, cls, nmax=3, closed=False, allow_periodic=True, kinds=None, uniform_periodic=True):
+LIMITERS = ["CHARM", "HCUS", "HQUICK", "ospre", "VanLeer", "VanAlbada1", "VanAlbada2", "MinMod", "SUPERBEE",
+            "Sweby", "Osher", "Koren", "smart", "MUSCL", "QUICK", "UMIST"]
+
+
+def uniform_faces(rng, cls, a, n):
+    lab = drive.AXIS_LABELS[cls][a]
+    if cls == "SphericalGrid3D" and lab == "theta":
+        return [Fr(1) + Fr(k, 2) * 0 + k * Fr(2, max(n, 1)) * 0 + Fr(k) * Fr(2, n) for k in range(n + 1)] if n in (1, 2) else \
+            [Fr(1), Fr(2), Fr(3)]
+    h = rng.choice([Fr(1, 2), Fr(1), Fr(2)])
+    lo = Fr(0) if lab not in ("r",) or rng.random() < 0.5 else Fr(1)
+    if lab == "theta":
+        lo = Fr(1, 2)
+        h = rng.choice([Fr(1, 2), Fr(1)])
+    return [lo + k * h for k in range(n + 1)]
+
+
+def gen_config(rng, cls, nmax=3, closed=False, allow_periodic=True, kinds=None, uniform_periodic=True,
+               uniform=False, nmin=1, nlim=None):
     d = drive.dim(cls)
-    cap = nmax if d < 3 else min(nmax, 2)
-    faces = [pick_faces(rng, cls, a, rng.randint(1, cap)) for a in range(d)]
+    cap = nmax if d < 3 else min(nmax, 2 if not uniform else 3)
+    if uniform:
+        faces = [uniform_faces(rng, cls, a, rng.randint(min(nmin, cap), cap)) for a in range(d)]
+    else:
+        faces = [pick_faces(rng, cls, a, rng.randint(1, cap)) for a in range(d)]
     dims = [len(f) - 1 for f in faces]
     cfg = {"cls": cls, "aunit": "sur" if cls == "SphericalGrid3D" else "rad",
            "faces": [[enc(x) for x in f] for f in faces]}
@@ -215,6 +236,8 @@ def gen_config(rng, cls, nmax=3, closed=False, allow_periodic=True, kinds=None, 
     cfg["phi"] = nested(full, lambda ix: enc(rng.choice([-2, -1, 0, 1, 2, 3])))
     cfg["dt"] = enc(rng.choice([Fr(1, 10), Fr(1), Fr(10), Fr(1000)]))
     cfg["lam"] = enc(rng.choice([Fr(-2), Fr(1, 2), Fr(3)]))
+    cfg["limiters"] = rng.sample(LIMITERS, nlim or 3)
+    cfg["const"] = enc(rng.choice([-2, 1, 3]))
     # boundary conditions
     bc = {}
     for a in range(d):
@@ -465,6 +488,19 @@ def observe(cfg, want):
             v4 = P.CellVariable(c.m, inner.copy(), make_bc(c.m, cfg["bc"], d))
             v5 = P.solveExplicitPDE(v4, float(dec(cfg["dt"])), P.constantSourceTerm(P.CellVariable(c.m, gam)))
             obs["f_explicit"] = lift.lift_array(np.asarray(v5._value))[0]
+        if W & {"tvd0", "tvd1", "tvdnamed", "tvdconst"}:
+            TVD = P.convectionTVDupwindRHSTerm
+            if "tvd0" in W:
+                obs["tvd0"] = vec_nested(TVD(c.u, phi, lambda r: 0.0 * r, c.uup), c.dims)
+            if "tvd1" in W:
+                obs["tvd1"] = vec_nested(TVD(c.u, phi, lambda r: 1.0 + 0.0 * r, c.uup), c.dims)
+            if "tvdnamed" in W:
+                obs["tvdnamed"] = {nm: vec_nested(TVD(c.u, phi, P.fluxLimiter(nm), c.uup), c.dims)
+                                   for nm in cfg["limiters"]}
+            if "tvdconst" in W:
+                cphi = P.CellVariable(c.m, float(dec(cfg["const"])) * np.ones([n + 2 for n in c.dims]))
+                obs["tvdconst"] = {nm: vec_nested(TVD(c.u, cphi, P.fluxLimiter(nm), c.uup), c.dims)
+                                   for nm in cfg["limiters"]}
         if proxy is not None:
             obs["trig_calls"] = len(proxy.calls)
     return obs
